@@ -1054,6 +1054,14 @@ Definition relu_dom (sb : ity) : Prop := is_signed sb = true.
 Theorem relu_unsigned_outside_onnx_domain sb : is_signed sb = false -> ~ relu_dom sb.
 Proof. unfold relu_dom; intros H1 H2; congruence. Qed.
 
+(* ---------------------------------------------------------------- pending repair (.scratch/c01k/fix_integer_pow0.diff) *)
+(* lax.integer_pow(x, 0) on integers: Add(Mul(x, 0), 1) instead of Pow (which has no int8 / int16 / unsigned base) *)
+Definition repaired_integer_pow0 (sb : ity) (x : Z) : Z := o_add sb (o_mul sb x 0) 1.
+Theorem repaired_integer_pow0_correct sb x : 0 < snd sb -> repaired_integer_pow0 sb x = jax_integer_pow sb x 0.
+Proof.
+  intro Hb. unfold repaired_integer_pow0, o_add, o_mul. rewrite Z.mul_0_r, wrap_add_l by exact Hb. reflexivity.
+Qed.
+
 (* ================================================================ non-vacuity *)
 Example nonvacuous_div : in_int I32 (-7) /\ in_int I32 2 /\ div_dom I32 (-7) 2 /\ lowered_div I32 (-7) 2 = -3.
 Proof. repeat split; vm_compute; try discriminate; try reflexivity. intros (_ & H & _). discriminate. Qed.
